@@ -101,7 +101,7 @@ def _variant(args):
             _normalise(tmp)
         elif kind == "renamed":
             _rename_locals(tmp)
-        elif kind in ("flip", "guard", "whiletrue", "demorgan"):
+        elif kind in ("flip", "guard", "whiletrue", "demorgan", "tmpvar", "condvar", "sortdefs"):
             _rewrite(tmp, kind)
         elif kind == "revert":
             diff = subprocess.run(["git", "-C", repo_root, "show", "--format=", spec, "--", "aiokafka"], capture_output=True, text=True)
@@ -127,7 +127,7 @@ def _variant(args):
 def run(pid, rep, repo_root):
     known = json.load(open(KNOWN)).get("findings", []) if os.path.exists(KNOWN) else []
     jobs = [(pid, repo_root, "normalised", ""), (pid, repo_root, "renamed", "")]
-    jobs += [(pid, repo_root, k, "") for k in ("flip", "guard", "whiletrue", "demorgan")]
+    jobs += [(pid, repo_root, k, "") for k in ("flip", "guard", "whiletrue", "demorgan", "tmpvar", "condvar", "sortdefs")]
     for k in known:
         if k.get("property") == pid and k.get("status") == "fixed" and k.get("commit"):
             jobs.append((pid, repo_root, "revert", k["commit"]))
@@ -159,7 +159,7 @@ def run(pid, rep, repo_root):
     for r in results:
         d = {"kind": r["kind"], "spec": os.path.relpath(r["spec"], VERIF) if r["spec"].startswith(VERIF) else r["spec"]}
         if "error" in r or "analysis_error" in r:
-            if r["kind"] in ("normalised", "renamed", "neutral", "flip", "guard", "whiletrue", "demorgan"):
+            if r["kind"] in ("normalised", "renamed", "neutral", "flip", "guard", "whiletrue", "demorgan", "tmpvar", "condvar", "sortdefs"):
                 problems.append(f"{r['kind']} {d['spec']}: {r.get('error') or r.get('analysis_error')}")
             else:
                 # a mutant that removes an anchor is an honest 'cannot decide', but the self-test expects a violation
@@ -168,7 +168,7 @@ def run(pid, rep, repo_root):
         elif "skipped" in r:
             summary["skipped"] += 1
             d["note"] = r["skipped"]
-        elif r["kind"] in ("neutral", "flip", "guard", "whiletrue", "demorgan"):
+        elif r["kind"] in ("neutral", "flip", "guard", "whiletrue", "demorgan", "tmpvar", "condvar", "sortdefs"):
             new = [v for v in r["violations"] if v not in open_known]
             if new:
                 problems.append(f"false alarm on the behaviour-preserving refactoring {d['spec']}: {new[:3]}")
